@@ -260,11 +260,20 @@ Section RunApi.
                              else show_coll (snd hc)])
              (stable_sort handle_cmp (cat_ns cat))).
 
+  (* calls whose translation depends on the state: DropOneWithKey *)
+  Definition call_in (ds : dstate) (x : sexp) : option call :=
+    match x with
+    | SList [SAtom "dropIndexKey"; s; db; co; k] =>
+        do s' <- z_of s; do h <- handle_of db co; do k' <- doc_of_sexp k;
+        Some (drop_by_key_call ds s' h k')
+    | _ => call_of x
+    end.
+
   Fixpoint run_calls (now : Z) (ds : dstate) (cs : list sexp) : list string :=
     match cs with
     | [] => ["FINAL " ++ show_catalog (ds_cat ds)]
     | x :: t =>
-        match call_of x with
+        match call_in ds x with
         | None => ["BAD-CALL"]
         | Some c =>
             let before := cat_clock (ds_cat ds) in
